@@ -193,6 +193,25 @@ def check_case(acc, pendulum, zname, inst, kw, variants=True, foreign=None):
             if got != (exp_f, exp_o):
                 acc.mismatch("add", "constructed-receiver", dict(case, receiver_fold=1 - x.fold),
                              {"fields": got[0], "offset": got[1]}, {"fields": exp_f, "offset": exp_o})
+    if variants:
+        # a receiver object that has been USED before (calendar arithmetic, modifiers, conversions, formatting - every
+        # one of them returns a new value): it still moves by exactly the amount
+        u = obs.utc_dt(pendulum, inst).in_timezone(tzobj)
+        for use in (lambda: u.add(days=1), lambda: u.add(months=1, weeks=2), lambda: u.subtract(years=1), lambda: u.start_of("day"),
+                    lambda: u.end_of("month"), lambda: u.in_timezone("UTC"), lambda: u.format("LLLL Z"), lambda: hash(u), lambda: u.timestamp(),
+                    lambda: u.diff(u), lambda: u.set(minute=1), lambda: u.day_of_year, lambda: u.isoformat()):
+            try:
+                use()
+            except Exception:  # noqa: BLE001
+                pass
+        for name, fn in (("add", lambda: u.add(**kw)), ("plus_td", lambda: u + td), ("subtract_neg", lambda: u.subtract(**{k: -v for k, v in kw.items()}))):
+            r = fn()
+            acc.c["evaluations"] += 1
+            acc.c["transitions"] += 1
+            got = (obs.fields(r), obs.offset_s(r))
+            if got != (exp_f, exp_o):
+                acc.mismatch(name, "receiver-used-before", dict(case, receiver="used"), {"fields": got[0], "offset": got[1]},
+                             {"fields": exp_f, "offset": exp_o})
     if variants if foreign is None else foreign:
         # receivers that carry a tzinfo which is not a pendulum timezone (raw constructor, fromisoformat(),
         # astimezone(<stdlib tzinfo>)): same instant, same zone - the timezone must be kept
